@@ -105,6 +105,33 @@ def specNames : List (String × String × String) := [
   ("COMPUTATION_STRATEGIES", "cpu", "HomogeneousCPUStrategy")
 ]
 
+/-- the documented default of every option that takes a value (what `tapkee --help` promises; for --eigenshift the value
+    written in the source and documented for the library keyword, see F-CLI-DEFAULT) -/
+def specDefaults : List (String × String) := [
+  ("input-file", "/dev/stdin"),
+  ("output-file", "/dev/stdout"),
+  ("output-projection-matrix-file", "/dev/null"),
+  ("output-projection-mean-file", "/dev/null"),
+  ("delimiter", ","),
+  ("method", "locally_linear_embedding"),
+  ("neighbors-method", "covertree"),
+  ("eigen-method", "dense"),
+  ("computation-strategy", "cpu"),
+  ("target-dimension", "2"),
+  ("num-neighbors", "10"),
+  ("gaussian-width", "1.0"),
+  ("timesteps", "1"),
+  ("eigenshift", "1e-9"),
+  ("landmark-ratio", "0.2"),
+  ("spe-tolerance", "1e-5"),
+  ("spe-num-updates", "100"),
+  ("max-iters", "1000"),
+  ("fa-epsilon", "1e-5"),
+  ("sne-perplexity", "30.0"),
+  ("sne-theta", "0.5"),
+  ("squishing-rate", "0.99")
+]
+
 /-- conditions that must make the program exit non-zero before it touches any data (property text: "Unknown method,
     neighbour-method or eigensolver names, a non-positive target dimension, fewer than 3 neighbours, a negative width
     or timestep count") -/
@@ -121,33 +148,25 @@ def specGuards : List Expr := [
 
 /-! ## Part 2 — theorems over the generated tables (`decide`: re-checked against every regeneration) -/
 
-/-- FULL STATEMENT (false of the code as it stands, see `wiring_correct_refuted`):
-    `∀ w ∈ cliWiring, rowOk specOptions specConstants w` — every `tapkee::kw = expr` row depends on exactly the option
-    whose help text names `kw`, with the polarity the help text states. -/
+/-- every `tapkee::kw = expr` row depends on exactly the option whose help text names `kw`, with the polarity the help
+    text states -/
 def WiringCorrect (wiring : List WireRow) : Prop :=
   ∀ w ∈ wiring, rowOk specOptions specConstants w = true
 
 instance (wiring : List WireRow) : Decidable (WiringCorrect wiring) := by
   unfold WiringCorrect; infer_instance
 
-/-- F-CLI-SPE: `tapkee::spe_global_strategy = opt.count("spe-local")` has the polarity inverted (`--spe-local`
-    selects the GLOBAL strategy, its absence the local one).  Witness row below. -/
-theorem wiring_correct_refuted : ¬ WiringCorrect cliWiring := by decide +kernel
+/-- `wiring_correct`, over the GENERATED table.  (Until /repo 168701f this was false: `tapkee::spe_global_strategy =
+    opt.count("spe-local")` had the polarity inverted — F-CLI-SPE; the witness is kept as corpus/C20/f-cli-spe.case and as
+    the `example` below.) -/
+theorem wiring_correct : WiringCorrect cliWiring := by decide +kernel
 
-/-- the witness: the offending row is classified as "present ⇒ true" while the spec says "present ⇒ false" -/
-theorem wiring_witness_spe_local :
-    { keyword := "spe_global_strategy", expr := .count "spe-local" } ∈ cliWiring ∧
-    classify (.count "spe-local") = some ("spe-local", .flagTrue) ∧
-    roleOf specOptions "spe-local" = some (.param "spe_global_strategy" .flagFalse) := by decide +kernel
+/-- the old row is rejected by the statement (so a regression to it breaks `wiring_correct`) -/
+example : rowOk specOptions specConstants { keyword := "spe_global_strategy", expr := .count "spe-local" } = false := by
+  decide +kernel
 
-/-- every other row is wired as the help text says -/
-theorem wiring_correct_partial :
-    WiringCorrect (cliWiring.filter (fun w => w.keyword != "spe_global_strategy")) := by decide +kernel
-
-/-- every option whose help text names a library parameter has a wiring row (for `spe-local`: a row for its keyword
-    exists; its polarity is the finding above) -/
-theorem every_param_option_wired_partial :
-    ∀ r ∈ specOptions, r.option ≠ "spe-local" → specRowWired cliWiring r = true := by decide +kernel
+/-- every option whose help text names a library parameter has its wiring row, with the documented polarity -/
+theorem every_param_option_wired : ∀ r ∈ specOptions, specRowWired cliWiring r = true := by decide +kernel
 
 /-- the option table and the spec talk about the same options, and flags are flags -/
 theorem options_match_spec :
@@ -189,23 +208,27 @@ theorem main_catches_everything :
     catchExit cliMainCatch ≠ 0 ∧ (cliMainCatch.any (fun c => c.1 == "...")) = true ∧
     (∀ c ∈ cliMainCatch, c.2 ≠ 0) := by decide +kernel
 
-/-- FULL STATEMENT (false as it stands, see `defaults_faithful_refuted`): the default an option really has (the text
-    cxxopts stores: `std::to_string(literal)`) is the literal written in `with_default(…)`. -/
-def DefaultsFaithful (rows : List OptRow) : Prop :=
-  ∀ r ∈ rows, r.ty = .dbl → parseNum (defaultText r).toList = parseNum r.default.toList
+/-- the default written in `with_default(…)` is the documented one, for every option that takes a value, and only those
+    options have one -/
+theorem defaults_match_spec :
+    (∀ r ∈ cliOptions, r.hasValue = true → (specDefaults.lookup r.canonical) = some r.default) ∧
+    (∀ d ∈ specDefaults, ((optRow? cliOptions d.1).map (·.hasValue)) = some true) := by decide +kernel
 
-instance (rows : List OptRow) : Decidable (DefaultsFaithful rows) := by
+/-- the default an option really has (the text cxxopts stores, as `with_default` formats it) is the literal written in
+    `with_default(…)` -/
+def DefaultsFaithful (via : String) (rows : List OptRow) : Prop :=
+  ∀ r ∈ rows, r.ty = .dbl → parseNum (defaultTextVia via r).toList = parseNum r.default.toList
+
+instance (via : String) (rows : List OptRow) : Decidable (DefaultsFaithful via rows) := by
   unfold DefaultsFaithful; infer_instance
 
-/-- F-CLI-DEFAULT: `with_default(1e-9)` stores `std::to_string(1e-9)` = "0.000000": the default eigenshift is 0 -/
-theorem defaults_faithful_refuted : ¬ DefaultsFaithful cliOptions := by decide +kernel
+/-- `defaults_faithful`, over the generated option table and the generated formatting of `with_default`.  (Until /repo
+    e383806 this was false: `std::to_string(1e-9)` = "0.000000" made the default eigenshift 0 — F-CLI-DEFAULT;
+    corpus/C20/f-cli-default.case.) -/
+theorem defaults_faithful : DefaultsFaithful doubleDefaultsVia cliOptions := by decide +kernel
 
-theorem defaults_witness_eigenshift :
-    (optRow? cliOptions "eigenshift").map defaultText = some "0.000000" ∧
-    (optRow? cliOptions "eigenshift").map (·.default) = some "1e-9" := by decide +kernel
-
-theorem defaults_faithful_partial :
-    DefaultsFaithful (cliOptions.filter (fun r => r.canonical != "eigenshift")) := by decide +kernel
+/-- the old formatting is rejected by the statement -/
+example : ¬ DefaultsFaithful "std::to_string" cliOptions := by decide +kernel
 
 /-! ## Part 3 — the data path: what is read, what the library receives, what is written -/
 
@@ -366,29 +389,30 @@ theorem transpose_input_semantics {α} (F : DMat α) (hwf : F.WF) (k s : Nat) (h
   simp only [libraryInput]
   exact transpose_get F hwf k s hk
 
-/-- FULL STATEMENT (false of the code as it stands): "one sample per line" — the rows `read_data` collects (with the
-    outer loop as it is written in util.hpp: `readLoopRereadsLastLine` is regenerated) are the values of the non-empty
-    lines of the text, for ALL texts. -/
-def OneSamplePerLine : Prop :=
-  ∀ (s : Str), readRowsWith readLoopRereadsLastLine parseNum ',' s =
+/-- "one sample per line": the rows `read_data` collects (with the outer loop as it is written in util.hpp:
+    `readLoopRereadsLastLine` is regenerated) are the values of the non-empty lines of the text, for ALL texts —
+    terminated by a final newline or not. -/
+def OneSamplePerLine (rereads : Bool) : Prop :=
+  ∀ (s : Str), readRowsWith rereads parseNum ',' s =
     ((splitOn '\n' s).filter (fun l => !l.isEmpty)).map (lineValues parseNum ',')
 
-/-- F-CLI-EOF: a file whose last line is not terminated by a newline yields that line TWICE.  Witness: the one-line
-    file `1` gives two samples. -/
-theorem one_sample_per_line_refuted : ¬ OneSamplePerLine := by
+/-- `one_sample_per_line`, for the loop form found in the source.  (Until /repo 05f6b6f the loop was `while (ifs) {
+    getline(ifs, str); …` and the statement false — F-CLI-EOF; corpus/C20/f-cli-eof.case.) -/
+theorem one_sample_per_line : OneSamplePerLine readLoopRereadsLastLine := by
+  intro s
+  have h : readLoopRereadsLastLine = false := by decide
+  rw [h]
+  exact readRowsWith_false parseNum ',' s
+
+/-- the old loop form is rejected by the statement: the one-line file `1` without a newline gave two samples -/
+example : ¬ OneSamplePerLine true := by
   intro h
   have := h ['1']
   revert this
   decide +kernel
 
-/-- the statement holds as soon as the loop is written `while (getline(ifs, str))` (the proposed fix): after the fix
-    `one_sample_per_line := one_sample_per_line_of_fixed rfl` replaces the refutation above -/
-theorem one_sample_per_line_of_fixed (h : readLoopRereadsLastLine = false) : OneSamplePerLine := by
-  intro s
-  rw [h]
-  exact readRowsWith_false parseNum ',' s
-
-/-- … and this is exactly what happens, for every such file -/
+/-- what the old loop form did, for every file whose last line is not terminated (kept: it is the precise content of
+    F-CLI-EOF) -/
 theorem unterminated_last_line_duplicated {α} (parse : Str → Option α) (d : Char) (ls : List Str) (last : Str)
     (h : ∀ l ∈ ls, '\n' ∉ l) (hl : '\n' ∉ last) (hne : last ≠ []) :
     readRowsWith true parse d (joinLines ls ++ last) =
